@@ -31,6 +31,7 @@ RULE = ("Hypothesis: instances of 8 harness Serializable classes whose annotatio
         "nested objects (as elements, keys or values) and both round trips were evaluated; distinct by the shape of "
         "the normal form (class names, container structure and sizes, scalar type tags, enum members).")
 RULE += (" " + 'The harness classes include Set[<Serializable>] fields (members hash by identity; compared as multisets of normal forms).')
+RULE += (" " + 'Round-8 addition: class VpC15Defaults whose container fields have non-empty class-level defaults (list, set, two dicts, tuple, list of objects).')
 ASSUMPTIONS = [
     "tuple fields hold a tuple of exactly the annotated arity or None (a default-constructed object holds () there, "
     "which is not a value of the annotated type); nested-object fields are never None; enum member names are upper "
